@@ -1042,6 +1042,15 @@ impl Gen {
         ] {
             self.tx(who, SMsg::PmProvide { liq_slip: None, swap_slip: Some(DEC / 2), receiver: recv, pool: p.clone(), unlock: Some(30 * DAY), lock_id: Some(id.to_string()) }, funds);
         }
+        // two assets, no identifier, for a third party; and the farm manager's own door: somebody else's explicit identifier
+        self.tx("alice", SMsg::PmProvide { liq_slip: None, swap_slip: None, receiver: Some("bob".into()), pool: p.clone(), unlock: Some(30 * DAY), lock_id: None }, both.clone());
+        self.tx("alice", SMsg::PmProvide { liq_slip: None, swap_slip: None, receiver: Some("alice".into()), pool: p.clone(), unlock: Some(30 * DAY), lock_id: None }, both.clone());
+        self.tx("carol", SMsg::FmPosCreate { id: Some("v".into()), dur: DAY, receiver: None }, vec![(lp.clone(), 7)]);
+        self.tx("carol", SMsg::FmPosCreate { id: Some("u-v".into()), dur: DAY, receiver: None }, vec![(lp.clone(), 7)]);
+        self.tx("carol", SMsg::FmPosCreate { id: Some("w".into()), dur: DAY, receiver: Some("bob".into()) }, vec![(lp.clone(), 7)]);
+        self.tx("bob", SMsg::FmPosClose("u-v".into(), None), vec![]);
+        self.tx("carol", SMsg::FmPosWithdraw("u-v".into(), Some(true)), vec![]);
+        self.tx("carol", SMsg::FmPosClose("u-v".into(), None), vec![]);
         self.next_epoch();
         for u in ["alice", "bob", "carol"] { self.q_rewards(u, None); }
     }
@@ -1064,6 +1073,8 @@ impl Gen {
             vec![op("uom", "uusd", &a), op("uusd", "uusdc", &s), op("uusdc", "uusd", &b), op("uusdc", "ubtc", &s)], // 2->3 broken, pool twice
             vec![op("uom", "uusd", &a), op("uusd", "uom", &a)],
             vec![op("uom", "uusd", &a), op("uusd", "ubtc", &s)],
+            vec![op("uom", "uusd", &a), op("uusd", "uusdc", &b), op("uusdc", "uusd", &s)],                         // uusd is output twice, by different pools
+            vec![op("uom", "uusd", &a), op("uusd", "uusdc", &s), op("uusdc", "uusd", &b), op("uusd", "ubtc", &s)], // and a pool twice
         ];
         for ops in routes {
             let amt = self.amt(5_000_000);
@@ -1072,6 +1083,50 @@ impl Gen {
             if let Some(q) = q { self.query(SQuery::RevSimOps { amount: q.max(1), ops: ops.clone() }); }
             self.tx("bob", SMsg::PmRoute { ops, min_receive: q, receiver: None, max_slip: Some(DEC / 2) }, vec![("uom".into(), amt)]);
         }
+    }
+
+    /// pool creation: decimals lists longer / shorter than the asset list, duplicate and single assets, fee sums at the
+    /// limit, stray and missing funds, after the owner changed the creation fee (same denom as the token-factory fee)
+    fn probe_creation(&mut self) {
+        let fees = Self::std_fees();
+        let mk = |denoms: &[&str], decimals: &[u8], amp: Option<u64>, fees: &SFees, id: &str| SMsg::PmCreatePool {
+            denoms: denoms.iter().map(|d| d.to_string()).collect(), decimals: decimals.to_vec(), fees: fees.clone(), amp, id: Some(id.to_string()) };
+        let Some(p) = self.mk_pool("a", &[("uom", 6), ("uusd", 6)], None, fees.clone()) else { return; };
+        self.plain_provide("alice", &p, vec![("uom".into(), 5_000_000_000), ("uusd".into(), 5_000_000_000)], None);
+        let owner = self.current_owner("PM");
+        for round in 0..2 {
+            let exact = self.creation_funds(true);
+            let cases: Vec<(Vec<&str>, Vec<u8>, Option<u64>, SFees)> = vec![
+                (vec!["uom", "uusdc"], vec![6, 6, 18], None, fees.clone()),
+                (vec!["uom", "uusdc"], vec![6], None, fees.clone()),
+                (vec!["uom", "uusdc", "uusd"], vec![6, 6, 6, 6], Some(85), fees.clone()),
+                (vec!["uom", "uusdc", "uusd"], vec![6, 6, 6], None, fees.clone()),
+                (vec!["uom"], vec![6], Some(85), fees.clone()),
+                (vec!["uom", "uom"], vec![6, 6], None, fees.clone()),
+                (vec!["uom", "uusdc"], vec![6, 6], Some(0), fees.clone()),
+                (vec!["uom", "uusdc"], vec![6, 6], None, SFees { protocol: DEC / 10, swap: DEC / 20, burn: DEC / 20, extra: vec![1] }),
+                (vec!["uom", "uusdc"], vec![6, 6], None, SFees { protocol: DEC / 10, swap: DEC / 20, burn: DEC / 20, extra: vec![] }),
+            ];
+            for (i, (dn, dc, amp, f)) in cases.iter().enumerate() {
+                let s = self.user();
+                self.tx(&s, mk(dn, dc, *amp, f, &format!("c{}{}", round, i)), exact.clone());
+            }
+            // funds: one unit short, one unit over, a stray denom, only the creation fee, only the token-factory fee
+            let mut short = exact.clone(); if let Some(c) = short.last_mut() { c.1 -= 1; }
+            let mut over = exact.clone(); if let Some(c) = over.first_mut() { c.1 += 1; }
+            let mut stray = exact.clone(); stray.push(("uusdc".into(), 1)); stray.sort();
+            let cfg = self.pm_cfg();
+            let only_fee = vec![(self.sim.sym(&cfg.pool_creation_fee.denom), cfg.pool_creation_fee.amount.u128())];
+            for (i, f) in [short, over, stray, only_fee, self.tf_fee_cache.clone()].into_iter().enumerate() {
+                let s = self.user();
+                let f: Vec<SCoin> = f.into_iter().filter(|c| c.1 > 0).collect();
+                self.tx(&s, mk(&["ubtc", "uusd"], &[8, 6], None, &fees, &format!("f{}{}", round, i)), f);
+            }
+            // the owner moves the creation fee into the token-factory fee's denom with a different amount
+            let tf = self.tf_fee_cache.first().cloned().unwrap_or(("uom".to_string(), 1000));
+            self.tx(&owner, SMsg::PmUpdateConfig { fc: None, fm: None, fee: Some((tf.0.clone(), tf.1 * 5 / 2)), toggle: None }, vec![]);
+        }
+        self.drain(&p);
     }
 
     /// a pool with extra fees and a burn fee: every swap path, then a complete drain
@@ -1383,7 +1438,7 @@ pub fn generate_probes(seed: u64, count: usize) -> Family {
     type F = fn(&mut Gen);
     let list: Vec<(&str, F)> = vec![
         ("asset-order", Gen::probe_asset_order as F), ("foreign-lock", Gen::probe_foreign_lock as F), ("routes", Gen::probe_routes as F),
-        ("extra-fees", Gen::probe_extra_fees as F), ("toggles", Gen::probe_toggles as F), ("single-sided", Gen::probe_single_sided as F),
+        ("extra-fees", Gen::probe_extra_fees as F), ("creation", Gen::probe_creation as F), ("toggles", Gen::probe_toggles as F), ("single-sided", Gen::probe_single_sided as F),
         ("farm-funds", Gen::probe_farm_funds as F), ("expiry-window", Gen::probe_expiry_window as F), ("penalty-split", Gen::probe_penalty_split as F),
         ("thirds", Gen::probe_thirds as F), ("position-limit", Gen::probe_position_limit as F), ("empty-claims", Gen::probe_empty_claims as F),
         ("fractional-weights", Gen::probe_fractional_weights as F), ("failing-refunds", Gen::probe_failing_refunds as F), ("big-and-decimals", Gen::probe_big_and_decimals as F),
